@@ -735,6 +735,84 @@ example : (runHistory { start := some (1 / 10), c2c := some (11 / 10) }
     [some (some (some 8, some (19487171 / 10000000))), none, some (some (some 8, some (10000000 / 19487171))), none,
      some (some (some 12, some (285311670611 / 100000000000)))] := by decide +kernel
 
+/-! ### 7c. preserving copies: asking for a (reversed) copy leaves the chop alone -/
+
+/-- A `copy_preserving` step inside a history leaves no trace on the object: parameters, `preserve` and `results`
+    afterwards, and every later answer, are those of the history without the step. -/
+theorem T_C03_copy_no_alias (ob : Obj) (pre post : List OStep) (inv : Bool) (t : Tol) (L : ℚ) (o : Oracle) :
+    (runObj ob (pre ++ .copy inv t L o :: post)).1 = (runObj ob (pre ++ post)).1 ∧
+    (runObj ob (pre ++ .copy inv t L o :: post)).2 =
+        (runObj ob pre).2 ++ (runObj (runObj ob pre).1 [.copy inv t L o]).2 ++ (runObj (runObj ob pre).1 post).2 ∧
+    (runObj ob (pre ++ post)).2 = (runObj ob pre).2 ++ (runObj (runObj ob pre).1 post).2 := by
+  refine ⟨?_, ?_, ?_⟩
+  · simp only [runObj_append, runObj]
+  · simp only [runObj_append, runObj, List.append_assoc, List.cons_append, List.nil_append]
+  · simp only [runObj_append]
+
+/-- whatever copies are requested in between, the parameter record of the object follows only the calls made on
+    the object itself (`runHistory`), so all history theorems above keep holding -/
+theorem T_C03_copy_params (ob : Obj) (steps : List OStep) :
+    (runObj ob steps).1.params = (runHistory ob.params (plainSteps steps)).1 :=
+  runObj_params ob steps
+
+/-- the copy of a chop that preserves the cell-to-cell ratio: count and ratio of the last results; evaluated on any
+    length it returns that count with total expansion `c^(n-1)`, the reversed copy the reciprocal `1 / c^(n-1)` -/
+theorem T_C03_copy_preserving {ob : Obj} {res : Vals} {n : ℕ} {c : ℚ} (hl : ob.last = some res) (hp : ob.preserve = .c2c)
+    (hn : res.count = some n) (hn1 : 1 ≤ n) (hc : res.c2c = some c) (hc0 : c ≠ 0) :
+    copyPreserving ob false = .ok { count := some n, c2c := some c } ∧
+    copyPreserving ob true = .ok { count := some n, c2c := some (1 / c) } ∧
+    ∀ (t : Tol) (L : ℚ) (o : Oracle) (r : Vals),
+      (calculate t L o { count := some n, c2c := some c } = .ok r → r.count = some n ∧ r.total = some (c ^ (n - 1))) ∧
+      (calculate t L o { count := some n, c2c := some (1 / c) } = .ok r →
+        r.count = some n ∧ r.total = some (1 / c ^ (n - 1))) := by
+  have hmax : max n 1 = n := by omega
+  refine ⟨?_, ?_, ?_⟩
+  · unfold copyPreserving
+    simp only [hl, hn, hp, Vals.get, hc, Vals.assign, hmax]
+    rfl
+  · unfold copyPreserving
+    simp only [hl, hn, hp, Vals.get, hc, Vals.assign, hmax]
+    simp only [reduceCtorEq, if_false, if_true]
+    unfold invert
+    rw [if_neg (by simp [hc0])]
+    rfl
+  · intro t L o r
+    constructor
+    · intro h
+      obtain ⟨h1, h2, _⟩ := T_C03_pair_count_c2c h
+      exact ⟨h1, h2⟩
+    · intro h
+      obtain ⟨h1, h2, _⟩ := T_C03_pair_count_c2c h
+      refine ⟨h1, ?_⟩
+      rw [h2, one_div, one_div, inv_pow]
+
+example : (runObj { params := { count := some 10, c2c := some (6 / 5) } }
+    [.plain (.eval T0 1 {}), .copy true T0 1 {}, .plain (.eval T0 1 {}), .copy false T0 1 {}]).2.map (fun r => r.map returned) =
+    [some (some (some 10, some (10077696 / 1953125))), some (some (some 10, some (1953125 / 10077696))),
+     some (some (some 10, some (10077696 / 1953125))), some (some (some 10, some (10077696 / 1953125)))] := by
+  decide +kernel
+
+/-! ### 7d. the written grading -/
+
+/-- `Grading.description` writes exactly the counts and total expansions of the specification (a bare total
+    expansion for a single division, the full list otherwise) and raises for an undefined grading -/
+theorem T_C03_description (spec : List Division) :
+    (spec = [] → description spec = .error .value) ∧
+    (spec ≠ [] → ∃ w, description spec = .ok w ∧ w.read.map (·.2) = spec.map (·.total) ∧
+      (2 ≤ spec.length → w.read.map (·.1) = spec.map (fun d => some d.count))) := by
+  constructor
+  · intro h; subst h; rfl
+  · intro h
+    match spec, h with
+    | [d], _ => exact ⟨.single d.total, rfl, rfl, fun h2 => by simp at h2⟩
+    | d1 :: d2 :: rest, _ =>
+      refine ⟨.multi (d1 :: d2 :: rest), rfl, ?_, fun _ => ?_⟩
+      · simp [Written.read]
+      · simp [Written.read]
+
+example : description [⟨1 / 2, 30, (3 / 5) ^ 29⟩, ⟨1 / 2, 10, 1⟩] =
+    .ok (.multi [⟨1 / 2, 30, (3 / 5) ^ 29⟩, ⟨1 / 2, 10, 1⟩]) := by decide +kernel
+
 /-- `Grading.inverted`: divisions in reverse order, same counts (and sum), reciprocal expansion, an involution -/
 theorem T_C03_invert_grading {spec inv : List Division} (h : inverted spec = .ok inv) :
     inv.map (·.count) = (spec.map (·.count)).reverse ∧ inv.map (·.ratio) = (spec.map (·.ratio)).reverse ∧
